@@ -58,13 +58,18 @@ Definition shift_end (r : range) (d : Z) : range :=
   {| r_file := r_file r; r_start := r_start r;
      r_end := {| p_line := p_line (r_end r); p_col := p_col (r_end r) + d; p_byte := p_byte (r_end r) + d |} |}.
 
+(* what stands between the brackets of an index step; nothing for an index left open (as repaired) *)
+Definition idx_token (t : string) (r : range) : list vtoken :=
+  let r' := shift_end (shift_start r 1) (-1) in
+  if Z.ltb (p_byte (r_start r')) (p_byte (r_end r')) then [tok t r'] else [].
+
 (* semanticTokensForTraversal *)
 Definition step_tokens (s : tstep) : list vtoken :=
   match s with
   | TSRoot r => [tok "reference-step" r]
   | TSAttr r => [tok "reference-step" (shift_start r 1)]
-  | TSIdxStr r => [tok "map-key" (shift_end (shift_start r 1) (-1))]
-  | TSIdxNum r => [tok "number" (shift_end (shift_start r 1) (-1))]
+  | TSIdxStr r => idx_token "map-key" r
+  | TSIdxNum r => idx_token "number" r
   | TSIdxOther _ => []
   end.
 
